@@ -7,6 +7,14 @@
 #include <cmath>
 #include <memory>
 
+// verification hook of Pass::runGraphite (GRAPHITE2_VERIF): the worst rule-loop count against its bound, per input line
+static unsigned long g_loop_iter = 0, g_loop_bound = 0, g_loop_calls = 0; static int g_loop_exceeded = 0;
+extern "C" void graphite2_verif_loop_report(unsigned long iterations, unsigned long bound) {
+    ++g_loop_calls;
+    if (iterations > bound) g_loop_exceeded = 1;
+    if (g_loop_bound == 0 || iterations * g_loop_bound > g_loop_iter * bound) { g_loop_iter = iterations; g_loop_bound = bound; }
+}
+
 static std::vector<std::string> split(const std::string &s, char c) {
     std::vector<std::string> r; std::stringstream ss(s); std::string t;
     while (std::getline(ss, t, c)) r.push_back(t);
@@ -72,7 +80,7 @@ int main(int argc, char **argv) {
     std::string line;
     char buf[256];
     while (std::getline(std::cin, line)) {
-        g_faults = 0;
+        g_faults = 0; g_loop_iter = g_loop_bound = g_loop_calls = 0; g_loop_exceeded = 0;
         std::vector<std::unique_ptr<CbFace>> cbs(8);
         gr_face *faces[8] = {0}; gr_font *fonts[8] = {0}; gr_feature_val *fvs[8] = {0}; SegRec segs[8];
         std::string out;
@@ -172,6 +180,8 @@ int main(int argc, char **argv) {
                 if (faces[k]) { gr_face_destroy(faces[k]); faces[k] = 0; }
             } else if (c == 'n') {                        // destroy font k
                 if (fonts[k]) { gr_font_destroy(fonts[k]); fonts[k] = 0; }
+            } else if (c == 'R') {                        // rule-loop report (hook)
+                snprintf(buf, sizeof buf, "loop=%lu/%lu passes=%lu exceeded=%d", g_loop_iter, g_loop_bound, g_loop_calls, g_loop_exceeded); emit(buf);
             } else if (c == 'L') {
                 emit(std::string("leak=") + (__lsan_do_recoverable_leak_check() ? "1" : "0"));
             } else emit("bad");
